@@ -1,12 +1,14 @@
 // C04: missing/masked values propagate through every operator and are never evaluated.
 // Exhaustive case matrix (DESIGN.md "### C04"): the matrix is generated from the X-macro tables below;
-// every (wrapper, element type, operator/function, operand-kind pattern) is one table entry ("overload
-// instance"), and the driver enumerates presence x values for every entry and judges each execution of the
-// REAL xtl code with the reference rule written out in judge().
+// every (wrapper, element type(s), operator/function, operand-kind pattern) is one table entry ("overload
+// instance"), and the driver enumerates flag values x operand values for every entry and judges each execution
+// of the REAL xtl code with the reference rule written out in run_one().
 //
 // compile-time configuration:
-//   -DC04_PART=n   which slice of the table this binary carries (keeps each TU small enough to build in parallel)
-//   -DC04_CREF=1   add the const-reference closure kind 'C' (xoptional<const T&, const bool&>) to the operand kinds
+//   -DC04_PART=n    which slice of the table this binary carries (keeps each TU small enough to build in parallel)
+//   -DC04_CREF=1    add the const-reference closure kind 'C' (<const T&, const bool&>) to the operand kinds
+//   -DC04_FLAGS=n   non-bool flag kinds 'I' (<T,int>) and 'J' (<T&,int&>): 0 none, 1 on the counting element types
+//                   (+ select), 2 on every element type and in the full ternary kind product
 #include <xtl/xtype_traits.hpp>
 
 #include "traced.hpp"
@@ -45,12 +47,18 @@ namespace xtl
 #ifndef C04_CREF
 #define C04_CREF 0
 #endif
+#ifndef C04_FLAGS
+#define C04_FLAGS 0
+#endif
 
 namespace c04
 {
     // ------------------------------------------------------------------ element types
+    enum EC { EC_INT, EC_DBL, EC_BOOL, EC_LL };
+
     inline double to_d(bool x) { return x ? 1.0 : 0.0; }
     inline double to_d(int x) { return double(x); }
+    inline double to_d(long long x) { return double(x); }
     inline double to_d(double x) { return x; }
     template <class B> inline double to_d(const Traced<B>& x) { return double(x.v); }
 
@@ -58,38 +66,57 @@ namespace c04
     template <> struct elem<int>
     {
         typedef int base;
-        enum { is_int = 1, traced = 0 };
+        enum { ec = EC_INT, traced = 0 };
         static const char* name() { return "int"; }
         static int make(double d) { return int(d); }
+    };
+    template <> struct elem<long long>
+    {
+        typedef long long base;
+        enum { ec = EC_LL, traced = 0 };
+        static const char* name() { return "long long"; }
+        static long long make(double d) { return (long long)d; }
     };
     template <> struct elem<double>
     {
         typedef double base;
-        enum { is_int = 0, traced = 0 };
+        enum { ec = EC_DBL, traced = 0 };
         static const char* name() { return "double"; }
         static double make(double d) { return d; }
     };
     template <> struct elem<bool>
     {
         typedef bool base;
-        enum { is_int = 1, traced = 0 };
+        enum { ec = EC_BOOL, traced = 0 };
         static const char* name() { return "bool"; }
         static bool make(double d) { return d != 0; }
     };
     template <> struct elem<Traced<int>>
     {
         typedef int base;
-        enum { is_int = 1, traced = 1 };
+        enum { ec = EC_INT, traced = 1 };
         static const char* name() { return "Traced<int>"; }
         static Traced<int> make(double d) { return Traced<int>(int(d)); }
     };
     template <> struct elem<Traced<double>>
     {
         typedef double base;
-        enum { is_int = 0, traced = 1 };
+        enum { ec = EC_DBL, traced = 1 };
         static const char* name() { return "Traced<double>"; }
         static Traced<double> make(double d) { return Traced<double>(d); }
     };
+
+    // the value an operand of this class holds when it is built from the driver's double
+    inline double canon(double v, int ec)
+    {
+        switch (ec)
+        {
+        case EC_INT: return double(int(v));
+        case EC_LL: return double((long long)v);
+        case EC_BOOL: return v != 0 ? 1.0 : 0.0;
+        default: return v;
+        }
+    }
 
     // bit-exact-enough comparison of values carried as double: NaN matches NaN, zeros must agree in sign
     inline bool same_d(double a, double b)
@@ -98,9 +125,9 @@ namespace c04
         return a == b && std::signbit(a) == std::signbit(b);
     }
 
-    // the lvalues a reference closure refers to (and the source of a value closure)
-    template <class E> struct Slot { E x; bool f; };
-    template <class E> inline Slot<E> mk(double v, int p) { Slot<E> s = {elem<E>::make(v), p != 0}; return s; }
+    // the lvalues a reference closure refers to (and the source of a value closure); f is the bool flag, fi the int flag
+    template <class E> struct Slot { E x; bool f; int fi; };
+    template <class E> inline Slot<E> mk(double v, int p) { Slot<E> s = {elem<E>::make(v), p != 0, p}; return s; }
 
     // ------------------------------------------------------------------ wrappers and operand kinds
     struct WOpt
@@ -109,6 +136,8 @@ namespace c04
         template <class E> static auto val(Slot<E>& s) { return xtl::optional(E(s.x), bool(s.f)); }
         template <class E> static auto ref(Slot<E>& s) { return xtl::optional(s.x, s.f); }
         template <class E> static auto cref(Slot<E>& s) { const E& x = s.x; const bool& f = s.f; return xtl::optional(x, f); }
+        template <class E> static auto ival(Slot<E>& s) { return xtl::optional(E(s.x), int(s.fi)); }
+        template <class E> static auto iref(Slot<E>& s) { return xtl::optional(s.x, s.fi); }
     };
     struct WMsk
     {
@@ -116,40 +145,65 @@ namespace c04
         template <class E> static auto val(Slot<E>& s) { return xtl::masked_value(E(s.x), bool(s.f)); }
         template <class E> static auto ref(Slot<E>& s) { return xtl::masked_value(s.x, s.f); }
         template <class E> static auto cref(Slot<E>& s) { const E& x = s.x; const bool& f = s.f; return xtl::masked_value(x, f); }
+        template <class E> static auto ival(Slot<E>& s) { return xtl::masked_value(E(s.x), int(s.fi)); }
+        template <class E> static auto iref(Slot<E>& s) { return xtl::masked_value(s.x, s.fi); }
     };
     // the closure kinds really are what the tables say
     static_assert(std::is_same<decltype(WOpt::val(std::declval<Slot<int>&>())), xtl::xoptional<int, bool>>::value, "V");
     static_assert(std::is_same<decltype(WOpt::ref(std::declval<Slot<int>&>())), xtl::xoptional<int&, bool&>>::value, "R");
     static_assert(std::is_same<decltype(WOpt::cref(std::declval<Slot<int>&>())), xtl::xoptional<const int&, const bool&>>::value, "C");
+    static_assert(std::is_same<decltype(WOpt::ival(std::declval<Slot<int>&>())), xtl::xoptional<int, int>>::value, "I");
+    static_assert(std::is_same<decltype(WOpt::iref(std::declval<Slot<int>&>())), xtl::xoptional<int&, int&>>::value, "J");
     static_assert(std::is_same<decltype(WMsk::val(std::declval<Slot<int>&>())), xtl::xmasked_value<int, bool>>::value, "V");
     static_assert(std::is_same<decltype(WMsk::ref(std::declval<Slot<int>&>())), xtl::xmasked_value<int&, bool&>>::value, "R");
     static_assert(std::is_same<decltype(WMsk::cref(std::declval<Slot<int>&>())), xtl::xmasked_value<const int&, const bool&>>::value, "C");
+    static_assert(std::is_same<decltype(WMsk::ival(std::declval<Slot<int>&>())), xtl::xmasked_value<int, int>>::value, "I");
+    static_assert(std::is_same<decltype(WMsk::iref(std::declval<Slot<int>&>())), xtl::xmasked_value<int&, int&>>::value, "J");
 
-    struct KP { enum { opt = 0 }; static char c() { return 'P'; } template <class W, class E> static E get(Slot<E>& s) { return s.x; } };
-    struct KV { enum { opt = 1 }; static char c() { return 'V'; } template <class W, class E> static auto get(Slot<E>& s) { return W::val(s); } };
-    struct KR { enum { opt = 1 }; static char c() { return 'R'; } template <class W, class E> static auto get(Slot<E>& s) { return W::ref(s); } };
-    struct KC { enum { opt = 1 }; static char c() { return 'C'; } template <class W, class E> static auto get(Slot<E>& s) { return W::cref(s); } };
+    // kind sets: a pattern is in the table when all its kinds lie in one enabled set
+    enum { S_BOOL = 1, S_CREF = 2, S_INT = 4, S_INTQ = 8, S_ALL = 15 };
 
-#if C04_CREF
-#define C04_KINDS(X) X(KP) X(KV) X(KR) X(KC)
-#else
-#define C04_KINDS(X) X(KP) X(KV) X(KR)
-#endif
-#define C04_TARGET_KINDS(X) X(KV) X(KR)
+    struct KP { enum { opt = 0, tri = 0, isref = 0, sets = S_ALL }; static char c() { return 'P'; } template <class W, class E> static E get(Slot<E>& s) { return s.x; } };
+    struct KV { enum { opt = 1, tri = 0, isref = 0, sets = S_BOOL | S_CREF | S_INT }; static char c() { return 'V'; } template <class W, class E> static auto get(Slot<E>& s) { return W::val(s); } };
+    struct KR { enum { opt = 1, tri = 0, isref = 1, sets = S_BOOL | S_CREF | S_INT }; static char c() { return 'R'; } template <class W, class E> static auto get(Slot<E>& s) { return W::ref(s); } };
+    struct KC { enum { opt = 1, tri = 0, isref = 0, sets = S_CREF }; static char c() { return 'C'; } template <class W, class E> static auto get(Slot<E>& s) { return W::cref(s); } };
+    struct KI { enum { opt = 1, tri = 1, isref = 0, sets = S_INT | S_INTQ }; static char c() { return 'I'; } template <class W, class E> static auto get(Slot<E>& s) { return W::ival(s); } };
+    struct KJ { enum { opt = 1, tri = 1, isref = 1, sets = S_INT | S_INTQ }; static char c() { return 'J'; } template <class W, class E> static auto get(Slot<E>& s) { return W::iref(s); } };
+
+#define C04_KINDS(X) X(KP) X(KV) X(KR) X(KC) X(KI) X(KJ)
+#define C04_TARGET_KINDS(X) X(KV) X(KR) X(KI) X(KJ)
+
+    // enabled kind sets for one-/two-operand forms and for three-operand forms, per element type
+    template <class E> struct masks
+    {
+        enum
+        {
+            flags_on = (C04_FLAGS >= 2) || (C04_FLAGS == 1 && elem<E>::traced),
+            m2 = S_BOOL | (C04_CREF ? S_CREF : 0) | (flags_on ? S_INT : 0),
+            m3 = S_BOOL | (C04_CREF ? S_CREF : 0) | (flags_on ? (C04_FLAGS >= 2 ? S_INT : S_INTQ) : 0),
+            msel = S_BOOL | (C04_CREF ? S_CREF : 0) | (C04_FLAGS >= 2 ? S_INT : (C04_FLAGS == 1 ? S_INTQ : 0))
+        };
+    };
+    enum { M_MIXED = S_BOOL };   // mixed element types: bool-flag value/reference closures
 
     // observers
     template <class T> inline bool pres(const T&) { return true; }
-    template <class T, class B> inline bool pres(const xtl::xoptional<T, B>& o) { return o.has_value(); }
-    template <class T, class B> inline bool pres(const xtl::xmasked_value<T, B>& o) { return o.visible(); }
+    template <class T, class B> inline bool pres(const xtl::xoptional<T, B>& o) { return o.has_value() ? true : false; }
+    template <class T, class B> inline bool pres(const xtl::xmasked_value<T, B>& o) { return o.visible() ? true : false; }
+    template <class T> inline int rawflag(const T&) { return 1; }
+    template <class T, class B> inline int rawflag(const xtl::xoptional<T, B>& o) { return int(o.has_value()); }
+    template <class T, class B> inline int rawflag(const xtl::xmasked_value<T, B>& o) { return int(o.visible()); }
     template <class T> inline double val(const T& x) { return to_d(x); }
     template <class T, class B> inline double val(const xtl::xoptional<T, B>& o) { return to_d(o.value()); }
     template <class T, class B> inline double val(const xtl::xmasked_value<T, B>& o) { return to_d(o.value()); }
 
-    template <class A, class E>
+    // operand (and what it was built from) still holds value v and flag p
+    template <class K, class A, class E>
     inline bool intact(const A& operand, const Slot<E>& s, double v, int p)
     {
-        return same_d(val(operand), to_d(elem<E>::make(v))) && pres(operand) == (p != 0) &&
-               same_d(to_d(s.x), to_d(elem<E>::make(v))) && s.f == (p != 0);
+        const double c = to_d(elem<E>::make(v));
+        return same_d(val(operand), c) && rawflag(operand) == (K::opt ? (K::tri ? p : int(p != 0)) : 1) &&
+               same_d(to_d(s.x), c) && s.f == (p != 0) && s.fi == p;
     }
 
     // ------------------------------------------------------------------ type-erased case table
@@ -176,7 +230,8 @@ namespace c04
     {
         std::string wrapper, elem, op, pat;
         int kind, arity, dom;
-        bool is_int, traced;
+        int ec[3];
+        bool traced, mixed;
         EvalFn eval;
         RefFn ref;
         std::string name() const { return wrapper + "<" + elem + ">|" + op + "|" + pat; }
@@ -191,10 +246,10 @@ namespace c04
     }
 
     // ------------------------------------------------------------------ evaluators (the only templates that touch xtl)
-    template <class W, class E, class Op, class K1>
+    template <class W, class Op, class E1, class K1>
     void ev1(const double* v, const int* p, Outcome& o)
     {
-        Slot<E> s1 = mk<E>(v[0], p[0]);
+        Slot<E1> s1 = mk<E1>(v[0], p[0]);
         auto a = K1::template get<W>(s1);
         const auto& ca = a;
         cnt_reset();
@@ -202,13 +257,14 @@ namespace c04
         grab(o);
         o.present = pres(r);
         o.val = val(r);
-        o.intact = intact(ca, s1, v[0], p[0]);
+        o.intact = intact<K1>(ca, s1, v[0], p[0]);
     }
 
-    template <class W, class E, class Op, class K1, class K2>
+    template <class W, class Op, class E1, class K1, class E2, class K2>
     void ev2(const double* v, const int* p, Outcome& o)
     {
-        Slot<E> s1 = mk<E>(v[0], p[0]), s2 = mk<E>(v[1], p[1]);
+        Slot<E1> s1 = mk<E1>(v[0], p[0]);
+        Slot<E2> s2 = mk<E2>(v[1], p[1]);
         auto a = K1::template get<W>(s1);
         auto b = K2::template get<W>(s2);
         const auto& ca = a;
@@ -218,13 +274,15 @@ namespace c04
         grab(o);
         o.present = pres(r);
         o.val = val(r);
-        o.intact = intact(ca, s1, v[0], p[0]) && intact(cb, s2, v[1], p[1]);
+        o.intact = intact<K1>(ca, s1, v[0], p[0]) && intact<K2>(cb, s2, v[1], p[1]);
     }
 
-    template <class W, class E, class Op, class K1, class K2, class K3>
+    template <class W, class Op, class E1, class K1, class E2, class K2, class E3, class K3>
     void ev3(const double* v, const int* p, Outcome& o)
     {
-        Slot<E> s1 = mk<E>(v[0], p[0]), s2 = mk<E>(v[1], p[1]), s3 = mk<E>(v[2], p[2]);
+        Slot<E1> s1 = mk<E1>(v[0], p[0]);
+        Slot<E2> s2 = mk<E2>(v[1], p[1]);
+        Slot<E3> s3 = mk<E3>(v[2], p[2]);
         auto a = K1::template get<W>(s1);
         auto b = K2::template get<W>(s2);
         auto c = K3::template get<W>(s3);
@@ -236,13 +294,14 @@ namespace c04
         grab(o);
         o.present = pres(r);
         o.val = val(r);
-        o.intact = intact(ca, s1, v[0], p[0]) && intact(cb, s2, v[1], p[1]) && intact(cc, s3, v[2], p[2]);
+        o.intact = intact<K1>(ca, s1, v[0], p[0]) && intact<K2>(cb, s2, v[1], p[1]) && intact<K3>(cc, s3, v[2], p[2]);
     }
 
-    template <class W, class E, class Op, class K1, class K2>
+    template <class W, class Op, class E1, class K1, class E2, class K2>
     void ev_cmpd(const double* v, const int* p, Outcome& o)
     {
-        Slot<E> s1 = mk<E>(v[0], p[0]), s2 = mk<E>(v[1], p[1]);
+        Slot<E1> s1 = mk<E1>(v[0], p[0]);
+        Slot<E2> s2 = mk<E2>(v[1], p[1]);
         auto t = K1::template get<W>(s1);
         auto b = K2::template get<W>(s2);
         const auto& cb = b;
@@ -252,11 +311,11 @@ namespace c04
         o.present = pres(t);
         o.val = val(t);
         o.self = (static_cast<const void*>(std::addressof(ret)) == static_cast<const void*>(std::addressof(t)));   // xoptional overloads unary &
-        bool ok = intact(cb, s2, v[1], p[1]);
-        if (K1::c() == 'R')   // reference closure: the referenced lvalues ARE the target
-            ok = ok && same_d(to_d(s1.x), o.val) && s1.f == (o.present != 0);
-        else                  // value closure: the source it was built from must not change
-            ok = ok && same_d(to_d(s1.x), to_d(elem<E>::make(v[0]))) && s1.f == (p[0] != 0);
+        bool ok = intact<K2>(cb, s2, v[1], p[1]);
+        if (K1::isref)   // reference closure: the referenced lvalues ARE the target
+            ok = ok && same_d(to_d(s1.x), o.val) && ((K1::tri ? s1.fi != 0 : s1.f) == (o.present != 0));
+        else             // value closure: the source it was built from must not change
+            ok = ok && same_d(to_d(s1.x), to_d(elem<E1>::make(v[0]))) && s1.f == (p[0] != 0) && s1.fi == p[0];
         o.intact = ok;
     }
 
@@ -273,15 +332,16 @@ namespace c04
         grab(o);
         o.present = 1;
         o.val = to_d(r);
-        o.intact = intact(ca, s1, v[0], p[0]) && same_d(to_d(dflt), to_d(elem<E>::make(v[1])));
+        o.intact = intact<K1>(ca, s1, v[0], p[0]) && same_d(to_d(dflt), to_d(elem<E>::make(v[1])));
     }
 
     // select(cond, a, b): position 0 is the (bool) condition
-    template <class E, class K0, class K1, class K2>
+    template <class K0, class E1, class K1, class E2, class K2>
     void ev_select(const double* v, const int* p, Outcome& o)
     {
         Slot<bool> s0 = mk<bool>(v[0], p[0]);
-        Slot<E> s1 = mk<E>(v[1], p[1]), s2 = mk<E>(v[2], p[2]);
+        Slot<E1> s1 = mk<E1>(v[1], p[1]);
+        Slot<E2> s2 = mk<E2>(v[2], p[2]);
         auto c = K0::template get<WOpt>(s0);
         auto a = K1::template get<WOpt>(s1);
         auto b = K2::template get<WOpt>(s2);
@@ -293,12 +353,16 @@ namespace c04
         grab(o);
         o.present = pres(r);
         o.val = val(r);
-        o.intact = intact(cc, s0, v[0], p[0]) && intact(ca, s1, v[1], p[1]) && intact(cb, s2, v[2], p[2]);
+        o.intact = intact<K0>(cc, s0, v[0], p[0]) && intact<K1>(ca, s1, v[1], p[1]) && intact<K2>(cb, s2, v[2], p[2]);
     }
 
-    template <class E, class Op> double rf1(const double* v) { typedef typename elem<E>::base B; return Op::ref(B(v[0])); }
-    template <class E, class Op> double rf2(const double* v) { typedef typename elem<E>::base B; return Op::ref(B(v[0]), B(v[1])); }
-    template <class E, class Op> double rf3(const double* v) { typedef typename elem<E>::base B; return Op::ref(B(v[0]), B(v[1]), B(v[2])); }
+    // reference: the builtin operation on the underlying builtin values (usual arithmetic conversions = common type)
+    template <class Op, class E1> double rf1(const double* v) { return Op::ref(typename elem<E1>::base(v[0])); }
+    template <class Op, class E1, class E2> double rf2(const double* v) { return Op::ref(typename elem<E1>::base(v[0]), typename elem<E2>::base(v[1])); }
+    template <class Op, class E1, class E2, class E3> double rf3(const double* v)
+    {
+        return Op::ref(typename elem<E1>::base(v[0]), typename elem<E2>::base(v[1]), typename elem<E3>::base(v[2]));
+    }
 
     // ------------------------------------------------------------------ the tables
     // binary operators: id, token, domain on int, integer-only
@@ -325,7 +389,7 @@ namespace c04
         enum { dom = DOM, intonly = INTONLY, kind = K_BINOP };                                               \
         static const char* nm() { return "operator" #TOK; }                                                  \
         template <class A, class B> static auto apply(const A& a, const B& b) { return a TOK b; }            \
-        template <class B> static double ref(B a, B b) { return to_d(a TOK b); }                             \
+        template <class A, class B> static double ref(A a, B b) { return to_d(a TOK b); }                    \
     };
     C04_BINOPS(X)
 #undef X
@@ -335,7 +399,7 @@ namespace c04
         enum { dom = D_ANY, intonly = 0, kind = KIND };                                                      \
         static const char* nm() { return "operator" #TOK; }                                                  \
         template <class A, class B> static bool apply(const A& a, const B& b) { return a TOK b; }            \
-        template <class B> static double ref(B a, B b) { return to_d(a == b); }                              \
+        template <class A, class B> static double ref(A a, B b) { return to_d(a == b); }                     \
     };
     C04_EQOPS(X)
 #undef X
@@ -345,7 +409,7 @@ namespace c04
         enum { dom = DOM, intonly = INTONLY, kind = K_UNOP };                                                \
         static const char* nm() { return "unary_operator" #TOK; }                                            \
         template <class A> static auto apply(const A& a) { return TOK a; }                                   \
-        template <class B> static double ref(B a) { return to_d(TOK a); }                                    \
+        template <class A> static double ref(A a) { return to_d(TOK a); }                                    \
     };
     C04_UNOPS(X)
 #undef X
@@ -355,7 +419,7 @@ namespace c04
         enum { dom = DOM, intonly = INTONLY, kind = K_CMPD };                                                \
         static const char* nm() { return "operator" #TOK; }                                                  \
         template <class T, class B> static T& apply(T& t, const B& b) { return t TOK b; }                    \
-        template <class B> static double ref(B a, B b) { a TOK b; return to_d(a); }                          \
+        template <class A, class B> static double ref(A a, B b) { a TOK b; return to_d(a); }                 \
     };
     C04_CMPDOPS(X)
 #undef X
@@ -365,7 +429,7 @@ namespace c04
         enum { dom = D_ANY, intonly = 0, kind = K_FN1 };                                                     \
         static const char* nm() { return #NAME; }                                                            \
         template <class A> static auto apply(const A& a) { return NAME(a); }                                 \
-        template <class B> static double ref(B a) { return to_d(std::NAME(a)); }                             \
+        template <class A> static double ref(A a) { return to_d(std::NAME(a)); }                             \
     };
     C04_FN1(X)
 #undef X
@@ -375,7 +439,7 @@ namespace c04
         enum { dom = D_ANY, intonly = 0, kind = K_FN2 };                                                     \
         static const char* nm() { return #NAME; }                                                            \
         template <class A, class B> static auto apply(const A& a, const B& b) { return NAME(a, b); }         \
-        template <class B> static double ref(B a, B b) { return to_d(std::NAME(a, b)); }                     \
+        template <class A, class B> static double ref(A a, B b) { return to_d(std::NAME(a, b)); }            \
     };
     C04_FN2(X)
 #undef X
@@ -385,7 +449,7 @@ namespace c04
         enum { dom = D_ANY, intonly = 0, kind = K_FN3 };                                                     \
         static const char* nm() { return #NAME; }                                                            \
         template <class A, class B, class C> static auto apply(const A& a, const B& b, const C& c) { return NAME(a, b, c); } \
-        template <class B> static double ref(B a, B b, B c) { return to_d(std::NAME(a, b, c)); }             \
+        template <class A, class B, class C> static double ref(A a, B b, C c) { return to_d(std::NAME(a, b, c)); } \
     };
     C04_FN3(X)
 #undef X
@@ -395,12 +459,13 @@ namespace c04
     template <> struct dom_of<fn_abs> { enum { value = D_NEG }; };
 
     // ------------------------------------------------------------------ registration: operand-kind patterns
-    inline void add_case(const char* w, const char* e, const char* op, const std::string& pat, int kind, int arity, int dom,
-                         bool is_int, bool traced, EvalFn ev, RefFn rf)
+    inline void add_case(const char* w, const std::string& e, const char* op, const std::string& pat, int kind, int arity, int dom,
+                         int ec0, int ec1, int ec2, bool traced, bool mixed, EvalFn ev, RefFn rf)
     {
         Case c;
         c.wrapper = w; c.elem = e; c.op = op; c.pat = pat; c.kind = kind; c.arity = arity; c.dom = dom;
-        c.is_int = is_int; c.traced = traced; c.eval = ev; c.ref = rf;
+        c.ec[0] = ec0; c.ec[1] = ec1; c.ec[2] = ec2;
+        c.traced = traced; c.mixed = mixed; c.eval = ev; c.ref = rf;
         table().push_back(c);
     }
 
@@ -408,38 +473,55 @@ namespace c04
     typedef std::false_type no;
     template <bool b> using bc = std::integral_constant<bool, b>;
 
-    template <class W, class E, class Op>
+    template <class E1, class E2> inline std::string en2()
+    {
+        return std::is_same<E1, E2>::value ? std::string(elem<E1>::name()) : std::string(elem<E1>::name()) + "," + elem<E2>::name();
+    }
+    template <class E1, class E2, class E3> inline std::string en3()
+    {
+        return (std::is_same<E1, E2>::value && std::is_same<E2, E3>::value) ? std::string(elem<E1>::name())
+                                                                            : std::string(elem<E1>::name()) + "," + elem<E2>::name() + "," + elem<E3>::name();
+    }
+    template <class E> struct is_intclass : bc<(elem<E>::ec == EC_INT || elem<E>::ec == EC_LL)> {};
+
+    // which operators are registered for an element pair: ALL = every operator that is well-formed on the builtins,
+    // INTONLY = just % & | ^ and their compound forms
+    enum { OPS_ALL, OPS_INTONLY };
+    template <class Op, class E1, class E2, int MODE> struct op_ok
+        : bc<(MODE == OPS_INTONLY ? (Op::intonly != 0) : (!Op::intonly || (is_intclass<E1>::value && is_intclass<E2>::value)))> {};
+
+    template <class W, class Op, class E1, int M>
     struct reg1
     {
         template <class K1> static void one(no) {}
         template <class K1> static void one(yes)
         {
-            add_case(W::name(), elem<E>::name(), Op::nm(), std::string(1, K1::c()), Op::kind, 1, dom_of<Op>::value, elem<E>::is_int, elem<E>::traced,
-                     &ev1<W, E, Op, K1>, &rf1<E, Op>);
+            add_case(W::name(), elem<E1>::name(), Op::nm(), std::string(1, K1::c()), Op::kind, 1, dom_of<Op>::value, elem<E1>::ec, 0, 0, elem<E1>::traced, false,
+                     &ev1<W, Op, E1, K1>, &rf1<Op, E1>);
         }
         static void all(no) {}
         static void all(yes)
         {
-#define X(K) one<K>(bc<K::opt != 0>());
+#define X(K) one<K>(bc<(K::opt != 0 && (K::sets & M) != 0)>());
             C04_KINDS(X)
 #undef X
         }
-        static void go() { all(bc<(!Op::intonly || elem<E>::is_int)>()); }
+        static void go() { all(op_ok<Op, E1, E1, OPS_ALL>()); }
     };
 
-    template <class W, class E, class Op>
+    template <class W, class Op, class E1, class E2, int M, int MODE = OPS_ALL>
     struct reg2
     {
         template <class K1, class K2> static void one(no) {}
         template <class K1, class K2> static void one(yes)
         {
             std::string pat; pat += K1::c(); pat += K2::c();
-            add_case(W::name(), elem<E>::name(), Op::nm(), pat, Op::kind, 2, Op::dom, elem<E>::is_int, elem<E>::traced,
-                     &ev2<W, E, Op, K1, K2>, &rf2<E, Op>);
+            add_case(W::name(), en2<E1, E2>(), Op::nm(), pat, Op::kind, 2, Op::dom, elem<E1>::ec, elem<E2>::ec, 0, elem<E1>::traced, !std::is_same<E1, E2>::value,
+                     &ev2<W, Op, E1, K1, E2, K2>, &rf2<Op, E1, E2>);
         }
         template <class K1> static void row()
         {
-#define X(K) one<K1, K>(bc<(K1::opt || K::opt)>());
+#define X(K) one<K1, K>(bc<((K1::opt || K::opt) && (K1::sets & K::sets & M) != 0)>());
             C04_KINDS(X)
 #undef X
         }
@@ -450,22 +532,22 @@ namespace c04
             C04_KINDS(X)
 #undef X
         }
-        static void go() { all(bc<(!Op::intonly || elem<E>::is_int)>()); }
+        static void go() { all(op_ok<Op, E1, E2, MODE>()); }
     };
 
-    template <class W, class E, class Op>
+    template <class W, class Op, class E1, class E2, class E3, int M>
     struct reg3
     {
         template <class K1, class K2, class K3> static void one(no) {}
         template <class K1, class K2, class K3> static void one(yes)
         {
             std::string pat; pat += K1::c(); pat += K2::c(); pat += K3::c();
-            add_case(W::name(), elem<E>::name(), Op::nm(), pat, Op::kind, 3, Op::dom, elem<E>::is_int, elem<E>::traced,
-                     &ev3<W, E, Op, K1, K2, K3>, &rf3<E, Op>);
+            add_case(W::name(), en3<E1, E2, E3>(), Op::nm(), pat, Op::kind, 3, Op::dom, elem<E1>::ec, elem<E2>::ec, elem<E3>::ec, elem<E1>::traced,
+                     !(std::is_same<E1, E2>::value && std::is_same<E2, E3>::value), &ev3<W, Op, E1, K1, E2, K2, E3, K3>, &rf3<Op, E1, E2, E3>);
         }
         template <class K1, class K2> static void row2()
         {
-#define X(K) one<K1, K2, K>(bc<(K1::opt || K2::opt || K::opt)>());
+#define X(K) one<K1, K2, K>(bc<((K1::opt || K2::opt || K::opt) && (K1::sets & K2::sets & K::sets & M) != 0)>());
             C04_KINDS(X)
 #undef X
         }
@@ -483,18 +565,19 @@ namespace c04
         }
     };
 
-    template <class W, class E, class Op>
+    template <class W, class Op, class E1, class E2, int M, int MODE = OPS_ALL>
     struct regc
     {
-        template <class K1, class K2> static void one()
+        template <class K1, class K2> static void one(no) {}
+        template <class K1, class K2> static void one(yes)
         {
             std::string pat; pat += K1::c(); pat += K2::c();
-            add_case(W::name(), elem<E>::name(), Op::nm(), pat, K_CMPD, 2, Op::dom, elem<E>::is_int, elem<E>::traced,
-                     &ev_cmpd<W, E, Op, K1, K2>, &rf2<E, Op>);
+            add_case(W::name(), en2<E1, E2>(), Op::nm(), pat, K_CMPD, 2, Op::dom, elem<E1>::ec, elem<E2>::ec, 0, elem<E1>::traced, !std::is_same<E1, E2>::value,
+                     &ev_cmpd<W, Op, E1, K1, E2, K2>, &rf2<Op, E1, E2>);
         }
         template <class K1> static void row()
         {
-#define X(K) one<K1, K>();
+#define X(K) one<K1, K>(bc<((K1::sets & K::sets & M) != 0)>());
             C04_KINDS(X)
 #undef X
         }
@@ -505,39 +588,40 @@ namespace c04
             C04_TARGET_KINDS(X)
 #undef X
         }
-        static void go() { all(bc<(!Op::intonly || elem<E>::is_int)>()); }
+        static void go() { all(op_ok<Op, E1, E2, MODE>()); }
     };
 
-    template <class E>
+    template <class E, int M>
     struct reg_value_or
     {
         template <class K1> static void one(no) {}
         template <class K1> static void one(yes)
         {
             std::string pat; pat += K1::c(); pat += 'P';
-            add_case("xoptional", elem<E>::name(), "value_or", pat, K_VALUE_OR, 2, D_ANY, elem<E>::is_int, false, &ev_value_or<E, K1, false>, nullptr);
-            add_case("xoptional", elem<E>::name(), "value_or&&", pat, K_VALUE_OR, 2, D_ANY, elem<E>::is_int, false, &ev_value_or<E, K1, true>, nullptr);
+            add_case("xoptional", elem<E>::name(), "value_or", pat, K_VALUE_OR, 2, D_ANY, elem<E>::ec, elem<E>::ec, 0, false, false, &ev_value_or<E, K1, false>, nullptr);
+            add_case("xoptional", elem<E>::name(), "value_or&&", pat, K_VALUE_OR, 2, D_ANY, elem<E>::ec, elem<E>::ec, 0, false, false, &ev_value_or<E, K1, true>, nullptr);
         }
         static void go()
         {
-#define X(K) one<K>(bc<K::opt != 0>());
+#define X(K) one<K>(bc<(K::opt != 0 && (K::sets & M) != 0)>());
             C04_KINDS(X)
 #undef X
         }
     };
 
-    template <class E>
+    template <class E1, class E2, int M>
     struct reg_select
     {
         template <class K0, class K1, class K2> static void one(no) {}
         template <class K0, class K1, class K2> static void one(yes)
         {
             std::string pat; pat += K0::c(); pat += K1::c(); pat += K2::c();
-            add_case("xoptional", elem<E>::name(), "select", pat, K_SELECT, 3, D_ANY, elem<E>::is_int, false, &ev_select<E, K0, K1, K2>, nullptr);
+            add_case("xoptional", en2<E1, E2>(), "select", pat, K_SELECT, 3, D_ANY, EC_BOOL, elem<E1>::ec, elem<E2>::ec, false, !std::is_same<E1, E2>::value,
+                     &ev_select<K0, E1, K1, E2, K2>, nullptr);
         }
         template <class K0, class K1> static void row2()
         {
-#define X(K) one<K0, K1, K>(bc<(K0::opt || K1::opt || K::opt)>());
+#define X(K) one<K0, K1, K>(bc<((K0::opt || K1::opt || K::opt) && (K0::sets & K1::sets & K::sets & M) != 0)>());
             C04_KINDS(X)
 #undef X
         }
@@ -555,84 +639,168 @@ namespace c04
         }
     };
 
-    template <class W, class E>
-    void reg_operators()
+    // ---- families
+    template <class W, class E1, class E2, int M, int MODE>
+    void reg_binops()
     {
-#define X(ID, TOK, DOM, INTONLY) reg2<W, E, op_##ID>::go();
+#define X(ID, TOK, DOM, INTONLY) reg2<W, op_##ID, E1, E2, M, MODE>::go();
         C04_BINOPS(X)
 #undef X
-#define X(ID, TOK, KIND) reg2<W, E, op_##ID>::go();
+    }
+    template <class W, class E1, class E2, int M>
+    void reg_eqops()
+    {
+#define X(ID, TOK, KIND) reg2<W, op_##ID, E1, E2, M>::go();
         C04_EQOPS(X)
 #undef X
-#define X(ID, TOK, DOM, INTONLY) reg1<W, E, op_##ID>::go();
+    }
+    template <class W, class E, int M>
+    void reg_unops()
+    {
+#define X(ID, TOK, DOM, INTONLY) reg1<W, op_##ID, E, M>::go();
         C04_UNOPS(X)
 #undef X
-#define X(ID, TOK, DOM, INTONLY) regc<W, E, op_##ID>::go();
+    }
+    template <class W, class E1, class E2, int M, int MODE>
+    void reg_cmpdops()
+    {
+#define X(ID, TOK, DOM, INTONLY) regc<W, op_##ID, E1, E2, M, MODE>::go();
         C04_CMPDOPS(X)
 #undef X
     }
-
     template <class W, class E>
-    void reg_fn12()
+    void reg_operators()
     {
-#define X(NAME) reg1<W, E, fn_##NAME>::go();
+        reg_binops<W, E, E, masks<E>::m2, OPS_ALL>();
+        reg_eqops<W, E, E, masks<E>::m2>();
+        reg_unops<W, E, masks<E>::m2>();
+        reg_cmpdops<W, E, E, masks<E>::m2, OPS_ALL>();
+    }
+    template <class W, class E>
+    void reg_fn1()
+    {
+#define X(NAME) reg1<W, fn_##NAME, E, masks<E>::m2>::go();
         C04_FN1(X)
 #undef X
-#define X(NAME) reg2<W, E, fn_##NAME>::go();
+    }
+    template <class W, class E1, class E2, int M>
+    void reg_fn2()
+    {
+#define X(NAME) reg2<W, fn_##NAME, E1, E2, M>::go();
         C04_FN2(X)
 #undef X
     }
-
-    template <class W, class E>
+    template <class W, class E1, class E2, class E3, int M>
     void reg_fn3()
     {
-#define X(NAME) reg3<W, E, fn_##NAME>::go();
+#define X(NAME) reg3<W, fn_##NAME, E1, E2, E3, M>::go();
         C04_FN3(X)
 #undef X
+    }
+    // mixed element types in one call: int with double in both orders (arithmetic, logical, ordering, equality,
+    // compound), int with long long in both orders (% & | ^ and their compound forms)
+    template <class W>
+    void reg_mixed_operators()
+    {
+        reg_binops<W, int, double, M_MIXED, OPS_ALL>();
+        reg_binops<W, double, int, M_MIXED, OPS_ALL>();
+        reg_eqops<W, int, double, M_MIXED>();
+        reg_eqops<W, double, int, M_MIXED>();
+        reg_cmpdops<W, int, double, M_MIXED, OPS_ALL>();
+        reg_cmpdops<W, double, int, M_MIXED, OPS_ALL>();
+        reg_binops<W, int, long long, M_MIXED, OPS_INTONLY>();
+        reg_binops<W, long long, int, M_MIXED, OPS_INTONLY>();
+        reg_cmpdops<W, int, long long, M_MIXED, OPS_INTONLY>();
+        reg_cmpdops<W, long long, int, M_MIXED, OPS_INTONLY>();
+    }
+    template <class W>
+    void reg_mixed_fn3()
+    {
+        typedef int I;
+        typedef double D;
+        reg_fn3<W, I, I, D, M_MIXED>();
+        reg_fn3<W, I, D, I, M_MIXED>();
+        reg_fn3<W, D, I, I, M_MIXED>();
+        reg_fn3<W, I, D, D, M_MIXED>();
+        reg_fn3<W, D, I, D, M_MIXED>();
+        reg_fn3<W, D, D, I, M_MIXED>();
     }
 
     inline void build_table()
     {
+        typedef Traced<int> TI;
+        typedef Traced<double> TD;
 #if C04_PART == 1
         reg_operators<WOpt, int>();
+#elif C04_PART == 19
         reg_operators<WOpt, double>();
 #elif C04_PART == 2
-        reg_operators<WOpt, Traced<int>>();
-        reg_value_or<int>::go();
-        reg_value_or<double>::go();
+        reg_binops<WOpt, TI, TI, masks<TI>::m2, OPS_ALL>();
 #elif C04_PART == 3
-        reg_fn12<WOpt, double>();
-        reg1<WOpt, int, fn_abs>::go();
-        reg_select<int>::go();
+        reg_fn1<WOpt, double>();
+        reg_fn2<WOpt, double, double, masks<double>::m2>();
+        reg1<WOpt, fn_abs, int, masks<int>::m2>::go();
+        reg_select<int, int, masks<int>::msel>::go();
 #elif C04_PART == 4
-        reg_fn12<WOpt, Traced<double>>();
-        reg_select<double>::go();
+        reg_fn1<WOpt, TD>();
+        reg_fn2<WOpt, TD, TD, masks<TD>::m2>();
+        reg_select<double, double, masks<double>::msel>::go();
 #elif C04_PART == 5
-        reg_fn3<WOpt, double>();
-        reg_fn3<WOpt, Traced<double>>();
+        reg_fn3<WOpt, double, double, double, masks<double>::m3>();
+        reg_fn3<WOpt, TD, TD, TD, masks<TD>::m3>();
 #elif C04_PART == 6
         reg_operators<WMsk, int>();
+#elif C04_PART == 20
         reg_operators<WMsk, double>();
 #elif C04_PART == 7
-        reg_operators<WMsk, Traced<int>>();
+        reg_binops<WMsk, TI, TI, masks<TI>::m2, OPS_ALL>();
 #elif C04_PART == 8
-        reg_fn12<WMsk, double>();
-        reg1<WMsk, int, fn_abs>::go();
+        reg_fn1<WMsk, double>();
+        reg_fn2<WMsk, double, double, masks<double>::m2>();
+        reg1<WMsk, fn_abs, int, masks<int>::m2>::go();
 #elif C04_PART == 9
-        reg_fn12<WMsk, Traced<double>>();
+        reg_fn1<WMsk, TD>();
+        reg_fn2<WMsk, TD, TD, masks<TD>::m2>();
 #elif C04_PART == 10
-        reg_fn3<WMsk, double>();
-        reg_fn3<WMsk, Traced<double>>();
+        reg_fn3<WMsk, double, double, double, masks<double>::m3>();
+        reg_fn3<WMsk, TD, TD, TD, masks<TD>::m3>();
+#elif C04_PART == 11
+        reg_mixed_operators<WOpt>();
+#elif C04_PART == 12
+        reg_fn2<WOpt, int, double, M_MIXED>();
+        reg_fn2<WOpt, double, int, M_MIXED>();
+        reg_select<int, double, M_MIXED>::go();
+        reg_select<double, int, M_MIXED>::go();
+#elif C04_PART == 13
+        reg_mixed_fn3<WOpt>();
+#elif C04_PART == 14
+        reg_mixed_operators<WMsk>();
+#elif C04_PART == 15
+        reg_fn2<WMsk, int, double, M_MIXED>();
+        reg_fn2<WMsk, double, int, M_MIXED>();
+#elif C04_PART == 16
+        reg_mixed_fn3<WMsk>();
+#elif C04_PART == 17
+        reg_eqops<WOpt, TI, TI, masks<TI>::m2>();
+        reg_unops<WOpt, TI, masks<TI>::m2>();
+        reg_cmpdops<WOpt, TI, TI, masks<TI>::m2, OPS_ALL>();
+        reg_value_or<int, masks<int>::msel>::go();
+        reg_value_or<double, masks<double>::msel>::go();
+#elif C04_PART == 18
+        reg_eqops<WMsk, TI, TI, masks<TI>::m2>();
+        reg_unops<WMsk, TI, masks<TI>::m2>();
+        reg_cmpdops<WMsk, TI, TI, masks<TI>::m2, OPS_ALL>();
 #else
 #error "unknown C04_PART"
 #endif
     }
 
     // ------------------------------------------------------------------ driver
-    static std::vector<double> g_ai, g_ad;   // value alphabets (int-valued / double)
+    // value alphabets: same-type int / double, and the mixed-type ones (chosen so that a narrowing is visible)
+    static std::vector<double> g_ai, g_ad, g_mi, g_md, g_ml;
     static bool g_replay = false;
     static long long g_eval = 0, g_nontrivial = 0, g_allpresent = 0, g_skipped = 0, g_forked = 0, g_noneval_judged = 0,
-                     g_eq_on_missing = 0, g_traced_seen = 0;
+                     g_eq_on_missing = 0, g_traced_seen = 0, g_intflag = 0, g_intflag_truthy_not1 = 0, g_mixed = 0, g_mixed_fractional = 0;
 
     static void alphabets(bool thorough)
     {
@@ -640,12 +808,36 @@ namespace c04
         const double ti[] = {-2, 3, -7, 255, double(INT_MAX - 1), double(INT_MIN + 1)};
         const double qd[] = {0.0, -0.0, 1.0, -2.5, DBL_MAX, HUGE_VAL, std::nan("")};
         const double td[] = {-1.0, 0.5, 2.0, -HUGE_VAL, DBL_MIN, 4.9406564584124654e-324};
+        const double qmi[] = {0, 2, -3, 7, double(INT_MAX)};
+        const double tmi[] = {1, -1, double(INT_MIN)};
+        const double qmd[] = {0.5, 2.5, -2.5, 1e10, -0.0};
+        const double tmd[] = {3.0, 1e300, HUGE_VAL, std::nan("")};
+        const double qml[] = {0, 3, -5, 1099511627777.0 /* 2^40+1 */, -1099511627776.0};
+        const double tml[] = {-1, 255, 4611686018427387904.0 /* 2^62 */};
         g_ai.assign(qi, qi + 7);
         g_ad.assign(qd, qd + 7);
+        g_mi.assign(qmi, qmi + 5);
+        g_md.assign(qmd, qmd + 5);
+        g_ml.assign(qml, qml + 5);
         if (thorough)
         {
             g_ai.insert(g_ai.end(), ti, ti + 6);
             g_ad.insert(g_ad.end(), td, td + 6);
+            g_mi.insert(g_mi.end(), tmi, tmi + 3);
+            g_md.insert(g_md.end(), tmd, tmd + 4);
+            g_ml.insert(g_ml.end(), tml, tml + 3);
+        }
+    }
+
+    static const std::vector<double>& alpha(const Case& c, int i)
+    {
+        static const std::vector<double> cond = {0.0, 1.0};
+        switch (c.ec[i])
+        {
+        case EC_BOOL: return cond;
+        case EC_INT: return c.mixed ? g_mi : g_ai;
+        case EC_LL: return g_ml;
+        default: return c.mixed ? g_md : g_ad;
         }
     }
 
@@ -664,10 +856,27 @@ namespace c04
         return b;
     }
 
-    // is the underlying builtin operation defined for these values? (int only; IEEE double is total)
+    // is the underlying builtin operation defined for these values? (IEEE double arithmetic is total)
     static bool defined(const Case& c, const double* v)
     {
-        if (!c.is_int) return true;
+        bool anyd = false;
+        for (int i = 0; i < c.arity; ++i) anyd = anyd || c.ec[i] == EC_DBL;
+        if (c.kind == K_CMPD && c.ec[0] != EC_DBL && anyd)
+        {
+            // integer target, double right-hand side: computed in double, converted back to int
+            double a = v[0], b = v[1], r;
+            switch (c.dom)
+            {
+            case D_ADD: r = a + b; break;
+            case D_SUB: r = a - b; break;
+            case D_MUL: r = a * b; break;
+            case D_DIV: r = a / b; break;
+            default: return true;
+            }
+            return std::isfinite(r) && r > -2147483649.0 && r < 2147483648.0;
+        }
+        if (anyd) return true;
+        if (c.kind == K_SELECT || c.kind == K_VALUE_OR) return true;
         long long a = (long long)v[0], b = c.arity > 1 ? (long long)v[1] : 0, r;
         switch (c.dom)
         {
@@ -719,35 +928,40 @@ namespace c04
         return r;
     }
 
+    static bool tri(char k) { return k == 'I' || k == 'J'; }
+
     static std::string describe(const Case& c, const double* v, const int* p)
     {
         std::string s = c.wrapper + "<" + c.elem + "> " + c.op + " operands[";
         for (int i = 0; i < c.arity; ++i)
         {
             if (i) s += ", ";
-            bool is_int = c.is_int || (c.kind == K_SELECT && i == 0);
             char k = c.pat[i];
             if (k == 'P') s += "plain ";
-            else s += std::string(k == 'V' ? "value-closure " : k == 'R' ? "ref-closure " : "const-ref-closure ") + (p[i] ? "present " : "MISSING ");
-            s += dstr(v[i], is_int);
+            else
+            {
+                s += (k == 'V' || k == 'I') ? "value-closure " : k == 'C' ? "const-ref-closure " : "ref-closure ";
+                if (tri(k)) s += "int-flag=" + vf::str(p[i]) + (p[i] ? " present " : " MISSING ");
+                else s += p[i] ? "present " : "MISSING ";
+            }
+            s += dstr(v[i], c.ec[i] != EC_DBL);
         }
         return s + "]";
     }
 
     static void report(const Case& c, const double* v, const int* p, const char* what, const std::string& detail)
     {
-        std::string pos, pr;
+        std::string pos, pr, pb;
         for (int i = 0; i < c.arity; ++i)
         {
-            pos += c.pat[i] == 'P' ? 'P' : 'O';
-            pr += c.pat[i] == 'P' ? 'p' : (p[i] ? '1' : '0');
+            pos += c.pat[i] == 'P' ? 'P' : (tri(c.pat[i]) ? 'N' : 'O');
+            pr += c.pat[i] == 'P' ? 'p' : char('0' + p[i]);
+            pb += char('0' + p[i]);
         }
         std::string sig = "C04/" + c.wrapper + "<" + c.elem + ">/" + c.op + "/" + pos + "/pres=" + pr + "/" + what;
         std::vector<std::string> rp;
         rp.push_back("--one");
         rp.push_back(c.name());
-        std::string pb;
-        for (int i = 0; i < c.arity; ++i) pb += p[i] ? '1' : '0';
         rp.push_back(pb);
         for (int i = 0; i < c.arity; ++i) rp.push_back(hexd(v[i]));
         vf::violation(sig, describe(c, v, p) + ": " + detail, rp);
@@ -762,8 +976,9 @@ namespace c04
 
     static void run_one(const Case& c, const double* v, const int* p, int verbose)
     {
+        // an operand is present when its flag converts to true (p is the flag value: 0/1 for bool flags, 0/1/2 for int flags)
         bool all_present = true;
-        for (int i = 0; i < c.arity; ++i) all_present = all_present && p[i];
+        for (int i = 0; i < c.arity; ++i) all_present = all_present && p[i] != 0;
         const bool def = defined(c, v);
         // the underlying builtin operation is undefined for these values: only run the case when the property
         // says the operation must not be evaluated at all (some operand missing and not a unary operator)
@@ -772,6 +987,15 @@ namespace c04
         Outcome o = execute(c, v, p, forked);
         ++g_eval;
         if (all_present) ++g_allpresent; else ++g_nontrivial;
+        bool has_tri = false, truthy2 = false, frac = false;
+        for (int i = 0; i < c.arity; ++i)
+        {
+            if (tri(c.pat[i])) { has_tri = true; if (p[i] > 1) truthy2 = true; }
+            if (c.ec[i] == EC_DBL && std::isfinite(v[i]) && v[i] != std::floor(v[i])) frac = true;
+        }
+        if (has_tri) ++g_intflag;
+        if (truthy2) ++g_intflag_truthy_not1;
+        if (c.mixed) { ++g_mixed; if (frac && all_present) ++g_mixed_fractional; }
 
         if (o.sig != 0)
         {
@@ -816,7 +1040,7 @@ namespace c04
         }
         case K_CMPD:
         {
-            bool after = p[0] && p[1];
+            bool after = p[0] != 0 && p[1] != 0;
             if ((o.present != 0) != after)
                 report(c, v, p, "flag-wrong", std::string("target is ") + (o.present ? "present" : "missing") + " afterwards, expected " + (after ? "present" : "missing"));
             else if (after)
@@ -828,7 +1052,7 @@ namespace c04
             }
             if (!after)
             {
-                double before = to_d(c.is_int ? double(int(v[0])) : v[0]);
+                double before = canon(v[0], c.ec[0]);
                 if (!same_d(o.val, before))
                     report(c, v, p, "target-altered", "target value changed from " + dstr(before, false) + " to " + dstr(o.val, false) + " although the result is missing");
                 if (c.traced)
@@ -844,8 +1068,7 @@ namespace c04
         }
         case K_VALUE_OR:
         {
-            double e = p[0] ? v[0] : v[1];
-            if (c.is_int) e = double(int(e));
+            double e = canon(p[0] ? v[0] : v[1], c.ec[0]);
             if (!same_d(o.val, e))
                 report(c, v, p, "value-wrong", "returned " + dstr(o.val, false) + ", expected " + dstr(e, false) + (p[0] ? " (the value)" : " (the default)"));
             break;
@@ -859,7 +1082,7 @@ namespace c04
             {
                 int k = v[0] != 0 ? 1 : 2;
                 ep = p[k] != 0;
-                e = c.is_int ? double(int(v[k])) : v[k];
+                e = canon(v[k], c.ec[k]);
             }
             if ((o.present != 0) != ep)
                 report(c, v, p, "presence-wrong", std::string("result is ") + resstr(c, o) + ", expected " + (ep ? "present" : "missing") +
@@ -876,36 +1099,38 @@ namespace c04
                         o.eq_calls, o.would_trap, o.intact, o.self);
         else
         {
-            // a few actual cases for the evidence file: one with a missing operand, one fully present, one forked, one compound/select
-            static bool s_missing = false, s_present = false, s_forked = false, s_other = false;
+            // a few actual cases for the evidence file
+            static bool s_missing = false, s_present = false, s_forked = false, s_other = false, s_flag = false, s_mixed = false;
             bool* slot = nullptr;
-            if (forked) slot = &s_forked;
+            if (truthy2 && !all_present) { if ((g_eval % 37) == 11) slot = &s_flag; }
+            else if (c.mixed && frac && all_present) { if ((g_eval % 29) == 3) slot = &s_mixed; }
+            else if (forked) slot = &s_forked;
             else if (c.kind == K_CMPD || c.kind == K_SELECT || c.kind == K_EQ) { if (!all_present && (g_eval % 53) == 7) slot = &s_other; }
             else if (!all_present) { if ((g_eval % 101) == 5) slot = &s_missing; }
             else if ((g_eval % 211) == 3) slot = &s_present;
             if (slot && !*slot)
             {
                 *slot = true;
-                vf::sample(describe(c, v, p) + " -> " + resstr(c, o) + (c.traced ? ", traced evaluations=" + vf::str(o.calls) : "") + (forked ? " [forked child]" : ""), 4);
+                vf::sample(describe(c, v, p) + " -> " + resstr(c, o) + (c.traced ? ", traced evaluations=" + vf::str(o.calls) : "") + (forked ? " [forked child]" : ""), 6);
             }
         }
     }
 
     static void run_case(const Case& c)
     {
-        const std::vector<double> cond = {0.0, 1.0};
-        const std::vector<double>& A = c.is_int ? g_ai : g_ad;
-        const std::vector<double>* al[3] = {&A, &A, &A};
-        if (c.kind == K_SELECT) al[0] = &cond;
-        int nopt = 0, optpos[3];
-        for (int i = 0; i < c.arity; ++i) if (c.pat[i] != 'P') optpos[nopt++] = i;
+        const std::vector<double>* al[3] = {&alpha(c, 0), &alpha(c, c.arity > 1 ? 1 : 0), &alpha(c, c.arity > 2 ? 2 : 0)};
+        int nopt = 0, optpos[3], radix[3];
+        long combos = 1;
+        for (int i = 0; i < c.arity; ++i)
+            if (c.pat[i] != 'P') { optpos[nopt] = i; radix[nopt] = tri(c.pat[i]) ? 3 : 2; combos *= radix[nopt]; ++nopt; }
         double v[3] = {0, 0, 0};
         int p[3] = {1, 1, 1};
         size_t n0 = al[0]->size(), n1 = c.arity > 1 ? al[1]->size() : 1, n2 = c.arity > 2 ? al[2]->size() : 1;
-        for (int m = 0; m < (1 << nopt); ++m)
+        for (long m = 0; m < combos; ++m)
         {
             for (int i = 0; i < 3; ++i) p[i] = 1;
-            for (int j = 0; j < nopt; ++j) p[optpos[j]] = (m >> j) & 1;
+            long r = m;
+            for (int j = 0; j < nopt; ++j) { p[optpos[j]] = int(r % radix[j]); r /= radix[j]; }
             for (size_t i0 = 0; i0 < n0; ++i0)
                 for (size_t i1 = 0; i1 < n1; ++i1)
                     for (size_t i2 = 0; i2 < n2; ++i2)
@@ -917,6 +1142,10 @@ namespace c04
                     }
         }
         vf::stat("overload_instances", 1);
+        if (c.mixed) vf::stat("overload_instances_mixed_element_types", 1);
+        bool t = false;
+        for (int i = 0; i < c.arity; ++i) t = t || tri(c.pat[i]);
+        if (t) vf::stat("overload_instances_with_int_flags", 1);
     }
 }
 
@@ -963,7 +1192,7 @@ int main(int argc, char** argv)
             double v[3];
             int p[3] = {1, 1, 1};
             for (int k = 0; k < 3; ++k) v[k] = strtod(ov[k], nullptr);
-            for (int k = 0; k < t[i].arity && ob[k]; ++k) p[k] = ob[k] == '1';
+            for (int k = 0; k < t[i].arity && ob[k]; ++k) p[k] = t[i].pat[k] == 'P' ? 1 : ob[k] - '0';
             run_one(t[i], v, p, 1);
         }
         if (!found) { std::printf("no such case in this part: %s\n", one); return 5; }
@@ -971,11 +1200,10 @@ int main(int argc, char** argv)
         return 0;
     }
     time_t t0 = time(nullptr);
-    size_t done_cases = 0, mine = 0;
+    size_t done_cases = 0;
     for (size_t i = 0; i < t.size(); ++i)
     {
         if (int(i % size_t(nshard)) != shard) continue;
-        ++mine;
         if (deadline > 0 && difftime(time(nullptr), t0) > deadline)
         {
             vf::cap("deadline reached in part " + vf::str(C04_PART) + " shard " + vf::str(shard) + "/" + vf::str(nshard) + " after " + vf::str(done_cases) +
@@ -985,11 +1213,14 @@ int main(int argc, char** argv)
         run_case(t[i]);
         ++done_cases;
     }
-    (void)mine;
     vf::stat("evaluations", g_eval);
     vf::stat("distinct_nontrivial", g_nontrivial);
     vf::stat("cases_all_present", g_allpresent);
     vf::stat("cases_some_operand_missing", g_nontrivial);
+    vf::stat("cases_with_int_flag_operand", g_intflag);
+    vf::stat("cases_with_truthy_int_flag_other_than_1", g_intflag_truthy_not1);
+    vf::stat("cases_mixed_element_types", g_mixed);
+    vf::stat("cases_mixed_all_present_with_fractional_operand", g_mixed_fractional);
     vf::stat("skipped_underlying_operation_undefined", g_skipped);
     vf::stat("forked_cases", g_forked);
     vf::stat("non_evaluation_judged", g_noneval_judged);
